@@ -43,6 +43,7 @@ def run(ctx):
     ctx.rule(seed_sources)
     ctx.rule(seed_by_identity)
     ctx.rule(components_in_place)
+    ctx.rule(manifest_lines)
     ctx.rule(torch_twins)
     ctx.rule(torch_port_geometry)
     ctx.rule(torch_port_spectrum)
@@ -59,6 +60,12 @@ def seed_by_identity(ctx, R="R-C09-seed"):
     cfg = _CFG(tool.node)
     info = c10.manifest_sites(ctx, tool, cfg)
     c10.seed_identity(ctx, tool, cfg, info, R)
+
+
+def manifest_lines(ctx, R="R-C09-manifest-exact"):
+    """an utterance is excluded by the manifest only if the manifest lists it: ids are looked up among its lines, not inside its text"""
+    from . import c10
+    c10.membership_over_text(ctx, ctx.prog.func("command_line.signals_to_torch_feat_dir"), R)
 
 
 def components_in_place(ctx, R="R-C09-pipeline"):
